@@ -213,9 +213,24 @@ def fail_stage(kind, tb):
     return 9
 
 
+OPEN_LEVELS = [0]   # evidence only: snippet levels open when the last call raised (0 when it returned)
+
+
+def open_snippet_levels(tb):
+    """how many snippet bodies were being resolved inside one another when the call raised (frames of the
+    snippet resolver on the traceback) -- read for the coverage statistics only, never by the oracle"""
+    n = 0
+    for f in traceback.extract_tb(tb):
+        if os.path.basename(f.filename) == 'snippets.py' and os.path.basename(os.path.dirname(f.filename)) == 'markup' \
+                and f.name == 'resolve':
+            n += 1
+    return max(0, n - 1)   # the innermost frame is the one whose body failed to parse: it was not open yet
+
+
 def do_call(abbr, cfg_arg, use_default=False, g=None):
     """the code path of emmet.expand; returns (outcome, kind, stage)"""
     kind = '?'
+    OPEN_LEVELS[0] = 0
     try:
         if use_default:
             kind = 'markup'
@@ -230,6 +245,7 @@ def do_call(abbr, cfg_arg, use_default=False, g=None):
     except RecursionError:
         return ['err', 'RecursionError'], kind, 8
     except Exception as e:
+        OPEN_LEVELS[0] = open_snippet_levels(e.__traceback__)
         return ['err', type(e).__name__], kind, fail_stage(kind, e.__traceback__)
 
 
@@ -305,7 +321,7 @@ def _run_calls(h, res, base_mod):
         before = [copy.deepcopy(strip(w[2])) for w in watched]
         obj_before = [fp(config_view(o)) for o in objs]
         out, kind, stage = do_call(c['abbr'], arg, use_default=(via == 'default'), g=g)
-        rec = {'out': out, 'kind': kind, 'stage': stage}
+        rec = {'out': out, 'kind': kind, 'stage': stage, 'open_levels': OPEN_LEVELS[0]}
         # caller's dict deep equality (also after a raising call)
         for (wk, wi, wd), b in zip(watched, before):
             if strip(wd) != b:
